@@ -193,6 +193,65 @@ def rule_cli_generate(ctx):
                 if c[0] == 'match' and c[2][0] == 'lit' and c[1] is not None:
                     xs_ = {x for _, xs in TM.paths(c[1]) for x in xs}
                     lowered = ('lower' in xs_) if lowered is None else (lowered and 'lower' in xs_)
+        # the same decision spelled with `if v == "pub" { return .. }` chains / helper functions: evaluate the value for the
+        # four kinds of flag value
+        def vis_eval(t_, flag):
+            tag = t_[0]
+            if tag == 'orelse':
+                return vis_eval(t_[2], flag) if flag is None else vis_eval(t_[1], flag)
+            if tag == 'join':
+                out = set()
+                for x_ in t_[1]:
+                    out |= vis_eval(x_, flag)
+                return out
+            if tag == 'early':
+                return vis_eval(t_[1], flag)
+            if tag in ('absent', 'none', 'unit', 'diverge'):
+                return set()
+            if tag in ('ctor', 'global'):
+                return {t_[1].split('::')[-1]}
+            if tag == 'agg':
+                return {t_[1].split('::')[-1]}
+            if tag == 'if':
+                c_ = t_[1]
+                val = None
+                if c_[0] == 'op' and c_[1] in ('==', '!=') and len(c_[2]) == 2:
+                    ks = [x_[1] for x_ in c_[2] if x_[0] == 'const' and isinstance(x_[1], str)]
+                    if ks and flag is not None:
+                        val = (flag == ks[0]) == (c_[1] == '==')
+                if val is True:
+                    return vis_eval(t_[2], flag)
+                if val is False:
+                    return vis_eval(t_[3], flag)
+                return vis_eval(t_[2], flag) | vis_eval(t_[3], flag)
+            if tag == 'match':
+                out = set()
+                for pat_, arm_ in t_[2]:
+                    if pat_[0] == 'lit' and flag is not None:
+                        if pat_[1] == flag:
+                            return vis_eval(arm_, flag)
+                        continue
+                    if pat_[0] == 'ctor' and pat_[1].endswith('None'):
+                        if flag is None:
+                            return vis_eval(arm_, flag)
+                        continue
+                    if pat_[0] == 'ctor' and pat_[1].endswith('Some'):
+                        if flag is None:
+                            continue
+                        return vis_eval(arm_, flag)
+                    if pat_[0] in ('wild', 'bind'):
+                        return out | vis_eval(arm_, flag)
+                    out |= vis_eval(arm_, flag)
+                return out
+            return {'?'}
+        if not (tbl.get('pub') == {'Public'} and tbl.get('<absent>') == {'Public'} and tbl.get('inherited') == {'Inherited'}):
+            tbl2 = {'<absent>': vis_eval(t, None), 'pub': vis_eval(t, 'pub'), 'inherited': vis_eval(t, 'inherited'), '<other>': vis_eval(t, 'crate::x')}
+            if all(v_ and '?' not in v_ for v_ in tbl2.values()):
+                tbl = tbl2
+                # .. and the comparisons are made on the lower-cased value
+                cmp_ = [s_ for s_ in P.subterms(t) if isinstance(s_, tuple) and s_ and s_[0] == 'op' and s_[1] in ('==', '!=') and any(x_[0] == 'const' and x_[1] in ('pub', 'inherited') for x_ in s_[2])]
+                if cmp_ and lowered is None:
+                    lowered = all(any('lower' in xs_ for _o, xs_ in TM.paths(y_)) for s_ in cmp_ for y_ in s_[2] if y_[0] != 'const')
         if lowered is False:
             obs.append(bad('FLAG-PLUMB', 'generate/visibility-case', 'the --module-visibility value is compared with the keywords as written (no lower-casing)', mv[0].get('sp', ''),
                            '`-m Pub` becomes the restricted visibility `pub(Pub)`: invalid code instead of a public module'))
@@ -354,9 +413,19 @@ def rule_introspect(ctx):
     for n in mcalls:
         by.setdefault(n['method'], []).append(n)
     # --- REQ-BUILD
+    def input_named(t_, name_):
+        """the command's input `name_`: a parameter of that name, or that member of a parameter record"""
+        while t_[0] in ('xf',) and t_[1] in ('own',):
+            t_ = t_[2]
+        if t_[:1] == ('param',) and t_[3] == name_:
+            return True
+        names_ = {name_, 'schema_' + name_}
+        if t_[0] == 'field' and t_[3] in names_ and t_[1][:1] == ('param',):
+            return True
+        # followed up to `main`: the member of the parsed command line
+        return t_[0] == 'field' and t_[3] in names_ and t_[1][0] == 'call' and 'Parser::parse' in t_[1][1]
     posts = by.get('post', [])
-    if len(posts) == 1 and posts[0]['args'] and fl.eval(posts[0]['args'][0])[:1] == ('param',) and \
-            fl.eval(posts[0]['args'][0])[3] == 'location':
+    if len(posts) == 1 and posts[0]['args'] and input_named(fl.eval(posts[0]['args'][0]), 'location'):
         obs.append(ok('REQ-BUILD', 'introspect/post', 'one POST to the given location', posts[0].get('sp', '')))
     else:
         obs.append(bad('REQ-BUILD', 'introspect/post', 'expected exactly one .post(location), found %d' % len(posts), fn.loc, 'request goes elsewhere / wrong method'))
@@ -404,7 +473,7 @@ def rule_introspect(ctx):
             if partial:
                 obs.append(bad('REQ-BUILD', 'introspect/custom-headers', 'inside the header loop the header is added only conditionally (%s)' % ', '.join(partial), h.get('sp', ''),
                                'some --header arguments are silently not sent'))
-            elif itt[:1] == ('param',) and itt[3] == 'headers' and not (_chain(h_owner, itn[1]) & {'filter', 'take', 'skip', 'step_by', 'take_while', 'skip_while', 'filter_map', 'dedup'}):
+            elif input_named(itt, 'headers') and not (_chain(h_owner, itn[1]) & {'filter', 'take', 'skip', 'step_by', 'take_while', 'skip_while', 'filter_map', 'dedup'}):
                 obs.append(ok('REQ-BUILD', 'introspect/custom-headers', 'every --header is added as (name, value)', h.get('sp', '')))
             else:
                 obs.append(bad('REQ-BUILD', 'introspect/custom-headers', 'header loop does not cover all given headers', h.get('sp', ''), 'some headers are not sent'))
@@ -456,6 +525,12 @@ def rule_introspect(ctx):
     if ch is not None:
         lits = {n['lit']['v'] for n in walk(ch.body) if n['k'] == 'lit' and n['lit']['lk'] == 'str'}
         gl = {n['res'].get('path', '').split('::')[-1] for n in walk(ch.body) if n['k'] == 'path' and n['res'].get('r') == 'def'}
+        # a value named by a constant of the crate (`const JSON_MEDIA_TYPE: &str = "application/json"`)
+        for n in walk(ch.body):
+            if n['k'] == 'path' and n['res'].get('r') == 'def' and str(n['res'].get('dk', '')).startswith('Const'):
+                for cf_ in cli.all_fns():
+                    if norm_path(cf_.path) == norm_path(n['res'].get('path', '')):
+                        lits |= {x['lit']['v'] for x in walk(cf_.body) if x['k'] == 'lit' and x['lit']['lk'] == 'str'}
         if lits == {'application/json'} and {'CONTENT_TYPE', 'ACCEPT'} <= gl and any(n['method'] == 'headers' for n in mcalls):
             obs.append(ok('REQ-BUILD', 'introspect/default-headers', 'Content-Type and Accept: application/json', ch.loc))
         else:
